@@ -291,14 +291,24 @@ func syncResultRules(c *Ctx) {
 
 // pageCopyRules: the two page copy loops (C01 skeleton, C17-R1).
 func pageCopyRules(c *Ctx, rule string, lockOnly bool) {
-	isEncodePage := nameIs("(*ltx.Encoder).EncodePage")
-	lockP := vResult(nameIs("ltx.LockPgno"), 0)
 	for _, fname := range []string{"(*ls.DB).writeLTXFromDB", "(*ls.DB).writeLTXFromWAL"} {
-		fn := c.fn(rule, fname)
-		if fn == nil {
+		root := c.fn(rule, fname)
+		if root == nil {
 			continue
 		}
-		name := fnName(fn)
+		pageCopyParts(c, rule, lockOnly, fname, root)
+	}
+}
+
+// pageCopyParts runs the page-copy rules over a function and the phases it may have been
+// split into; the instance floors apply to the sum over the parts.
+func pageCopyParts(c *Ctx, rule string, lockOnly bool, fname string, root *ssa.Function) {
+	isEncodePage := nameIs("(*ltx.Encoder).EncodePage")
+	lockP := vResult(nameIs("ltx.LockPgno"), 0)
+	name := fnName(root)
+	c.floorBegin()
+	defer c.floorEnd()
+	for _, fn := range deepFuncs(root) {
 		loops := naturalLoops(fn)
 		counted := countedLoops(fn)
 		c.floor(rule, len(counted), 1, "dense page loop in "+name)
